@@ -84,8 +84,9 @@ class CWLDependencyListener(ECMAScriptListener):
     ) -> None:
         if self._get_name(ctx.singleExpression()) in self.names.global_names():
             for expr in ctx.expressionSequence().singleExpression():
-                if dep := self._get_index(expr.literal()).strip("'\""):
-                    self.deps.add(dep)
+                if index := self._get_index(expr.literal()):
+                    if dep := index.strip("'\""):
+                        self.deps.add(dep)
 
 
 class DependencyResolver:
